@@ -77,7 +77,7 @@ def proof_stage(res, module, theorems, tier, extra_targets=("tbmodel",)):
     if missing:
         res.build_problems.append("theorems missing from %s: %s" % (module, ", ".join(missing)))
     theorems = list(theorems) + [t for t in declared if t not in theorems]
-    res.obligations = list(theorems)
+    res.obligations = res.obligations + [t for t in theorems if t not in res.obligations]
     clean = [module] if tier == "thorough" else []
     ok, out = C.lean_build([module] + list(extra_targets), clean_modules=clean)
     if not ok:
@@ -95,7 +95,7 @@ def proof_stage(res, module, theorems, tier, extra_targets=("tbmodel",)):
             res.discharged.append(t)
         else:
             res.build_problems.append("theorem %s: %s" % (t, info))
-    res.extra["axioms"] = {t: ax[t][1] for t in theorems}
+    res.extra.setdefault("axioms", {}).update({t: ax[t][1] for t in theorems})
     if tier == "thorough" and not res.build_problems:
         rc, out = C.sh(["lake", "env", "leanchecker", module], cwd=C.LEAN, timeout=3600)
         res.extra["leanchecker_rc"] = rc
